@@ -57,8 +57,9 @@ def ConfigurationFileToJson(filename):
 
     '''Reads dosini format configuration file and returns it as json string'''
 
-    # VV: values are literal text (e.g. key-output descriptions), '%' has no special meaning
-    cfg = configparser.ConfigParser(interpolation=None)
+    # VV: values are literal text (e.g. key-output descriptions), '%' has no special meaning and no line is a comment
+    # (the continuation line of a value may well start with '#' or ';')
+    cfg = configparser.ConfigParser(interpolation=None, comment_prefixes=())
     cfg.read([filename])
     return ConfigurationToJson(cfg)
 
